@@ -58,7 +58,7 @@ def vw(b):
 class C14(Prop):
     id = "C14"
     title = "Output reaches the client in order, exactly once, under any write pattern"
-    lean_modules = ["NV.C14.Props", "NV.C14.PropsHist", "NV.C14.PropsNeg", "NV.C14.PropsMulti"]
+    lean_modules = ["NV.C14.Props", "NV.C14.PropsHist", "NV.C14.PropsNeg", "NV.C14.PropsMulti", "NV.C14.PropsClose"]
     theorems = ["NV.C14.model_satisfies_spec", "NV.C14.ring_inv", "NV.C14.ring_indices_in_bounds",
                 "NV.C14.chunk_in_bounds", "NV.C14.no_fault", "NV.C14.write_interest_when_pending",
                 "NV.C14.N_two_le", "NV.C14.only_tail_lost", "NV.C14.write_stores_prefix_image",
@@ -67,6 +67,9 @@ class C14(Prop):
                 # several users, snoop links, add_message re-entered from a snooper's receive_snoop
                 "NV.C14.world_user_stream", "NV.C14.multi_user_stream_ok", "NV.C14.multi_model_satisfies_spec",
                 "NV.C14.multi_delivered_is_stored",
+                # pending bytes at close: what is promised
+                "NV.C14.close_loses_only_unsent_suffix", "NV.C14.close_delivers_all_when_socket_accepts",
+                "NV.C14.flushLoop_drains", "NV.C14.peerfin_sends_nothing",
                 # bridges between the definitions regenerated from src/comm.c and the ring operations
                 "NV.C14.chunkLen_eq", "NV.C14.producerNext_eq", "NV.C14.consumerNext_eq", "NV.C14.lengthAfterSend_eq",
                 "NV.C14.thrFull_eq", "NV.C14.thrLF_eq", "NV.C14.keepsData_eq", "NV.C14.keepsData_pipe",
